@@ -1,7 +1,7 @@
 (* C13 -- data-parallel utilities equal their sequential definition: the property theorems.
    Models: Util/Reduce.v, Util/Sort.v, Util/Allpairs.v (extracted and compared with the real code on every run). *)
 From Coq Require Import List Arith NArith ZArith Permutation.
-From QV Require Import Util.Reduce Util.ReduceProofs Util.Sort Util.SortProofs Util.SortCorrect Util.Allpairs Util.AllpairsProofs.
+From QV Require Import Util.Reduce Util.ReduceProofs Util.Sort Util.SortProofs Util.SortCorrect Util.MergeCorrect Util.Strided Util.Allpairs Util.AllpairsProofs.
 Import ListNotations.
 
 (* the worker ranges of qt_loopaccum_balance_inner tile [start,stop): non-empty, consecutive, min(len,workers) of them,
@@ -159,6 +159,48 @@ Theorem partition_loop_correct :
                      SegRel V dflt a a2 b len /\ Iinv V leb dflt a2 b p len lw2 rw2.
 Proof. exact SortCorrect.walls_spec. Qed.
 Print Assumptions partition_loop_correct.
+
+(* groundwork for strided_pass_post (not yet connected to it): the index arithmetic of the strided threads.
+   idx k = (k / cs) * (cs*nt) + k mod cs enumerates, in increasing order, the local indices a thread owns; the code's
+   left / right steps are exactly next / previous in that enumeration (no previous before the first), and the slices
+   t*cs + idx k, t < nt, of the threads are pairwise disjoint and cover every index. *)
+Theorem strided_steps_enumerate : forall (P : params) (nt : N), (0 < p_chunk P)%N -> (0 < nt)%N ->
+  let jump := ((nt - 1) * p_chunk P + 1)%N in
+  (forall k, lstep P jump (idx P nt k) = idx P nt (k + 1)) /\
+  (forall k, rstep P jump (idx P nt (k + 1)) = Some (idx P nt k)) /\
+  rstep P jump (idx P nt 0) = None /\
+  (forall k, (idx P nt k < idx P nt (k + 1))%N).
+Proof.
+  intros P nt H1 H2. split; [|split; [|split]].
+  - apply Strided.lstep_idx; assumption.
+  - apply Strided.rstep_idx_succ; assumption.
+  - apply Strided.rstep_idx_0; assumption.
+  - apply Strided.idx_increasing; assumption.
+Qed.
+Print Assumptions strided_steps_enumerate.
+
+Theorem strided_slices_partition : forall (P : params) (nt : N), (0 < p_chunk P)%N -> (0 < nt)%N ->
+  (forall j, exists t k, (t < nt)%N /\ j = (t * p_chunk P + idx P nt k)%N) /\
+  (forall t k t' k', (t < nt)%N -> (t' < nt)%N ->
+     (t * p_chunk P + idx P nt k = t' * p_chunk P + idx P nt k')%N -> t = t' /\ k = k').
+Proof.
+  intros P nt H1 H2. split.
+  - apply Strided.slice_decompose; assumption.
+  - apply Strided.slice_unique; assumption.
+Qed.
+Print Assumptions strided_slices_partition.
+
+(* qutil_mergesort (presort of chunks of 10 by the cutoff sort, rounds of in-place merges, run length doubling):
+   for every array of every length n >= 1 the call returns a sorted permutation, the rest of the memory is untouched.
+   (merge of two sorted runs by rotation: sorted + permutation; rounds: runs of length cs -> 2cs; log2(n)+1 rounds suffice) *)
+Theorem mergesort_sorted_permutation :
+  forall (V : Type) (leb : V -> V -> bool) (dflt : V) bs (n : N),
+  OrderOK V leb -> BaseSortOK V leb dflt n bs -> (0 < n)%N ->
+  forall a, Permutation (to_list V dflt a n) (to_list V dflt (mergesort V leb dflt bs a n) n) /\
+            SortedSeg V leb dflt (mergesort V leb dflt bs a n) 0%N n /\
+            (forall k, (n <= k)%N -> aget V dflt (mergesort V leb dflt bs a n) k = aget V dflt a k).
+Proof. exact MergeCorrect.mergesort_sorted_permutation. Qed.
+Print Assumptions mergesort_sorted_permutation.
 
 (* regression (Examples in Util/SortProofs.v): qsort_const_diverged_old -- the code before the pivot rule recurses for ever
    on equal elements (qsort_old_stuck: the mechanism); qsort_stall_old_rule -- the partition loop before the no-progress
